@@ -116,6 +116,27 @@ def baseline(name):
 
 def cases(tier, seed, i, n):
     def allcases():
+        # the small blocks first: a shard that runs out of time has still done every kind
+        for naddr in (1, 2, 3, 4):
+            for j in range(0, naddr + 1):
+                for how in ('refused', 'timeout', 'sockfail'):
+                    for name in ('text-exchange', 'client-close'):
+                        for fam in ('v4', 'v6', 'v6-first', 'v4-first'):
+                            yield dict(kind='addr', sc=name, naddr=naddr, j=j, how=how, fam=fam)
+        for naddr in (2, 3):
+            for first_ok in range(naddr):
+                for second_ok in range(naddr):
+                    for fam in ('v4', 'v6-first', 'v4-first'):
+                        yield dict(kind='addr-reconnect', naddr=naddr, first_ok=first_ok, second_ok=second_ok, fam=fam)
+        for bfault in ('eof', 'reset', 'protocol-error', 'server-close'):
+            for astuck in ('app-send', 'app-ping', 'app-close'):
+                yield dict(kind='twoconn', bfault=bfault, astuck=astuck)
+        if tier == 'thorough':
+            for r in range(40):
+                yield dict(kind='real', mode=('rst', 'fin')[r % 2], off=r * 7 % 150, r=r)
+        else:
+            for r in range(6):
+                yield dict(kind='real', mode=('rst', 'fin')[r % 2], off=(0, 40, 129, 131, 140, 150)[r], r=r)
         for name in SC:
             b = baseline(name)
             if b['end'] not in ('stop', 'quiesced'):
@@ -140,12 +161,6 @@ def cases(tier, seed, i, n):
                 for kind in ('eof', 'reset', 'runtime'):
                     yield dict(kind='offset', sc=name, off=off, fault=kind)
         yield gen.mark('one fault at every recorded socket operation x every fault kind, and at every byte offset of the server stream, for 8 base scenarios')
-        for naddr in (1, 2, 3, 4):
-            for j in range(0, naddr + 1):
-                for how in ('refused', 'timeout', 'sockfail'):
-                    for name in ('text-exchange', 'client-close'):
-                        for fam in ('v4', 'v6', 'v6-first', 'v4-first'):
-                            yield dict(kind='addr', sc=name, naddr=naddr, j=j, how=how, fam=fam)
         rnd = random.Random(seed * 3571 + 9)
         names = sorted(SC)
         for _ in range(2000 if tier == 'quick' else 1500000):
@@ -158,20 +173,6 @@ def cases(tier, seed, i, n):
             a, c = rnd.sample(pts, 2)
             yield dict(kind='double', sc=name, f1=[a[0], a[1], rnd.choice(KINDS)], f2=[c[0], c[1], rnd.choice(KINDS)],
                        cuts=rnd.choice((None, 'all')))
-        for naddr in (2, 3):
-            for first_ok in range(naddr):
-                for second_ok in range(naddr):
-                    for fam in ('v4', 'v6-first', 'v4-first'):
-                        yield dict(kind='addr-reconnect', naddr=naddr, first_ok=first_ok, second_ok=second_ok, fam=fam)
-        for bfault in ('eof', 'reset', 'protocol-error', 'server-close'):
-            for astuck in ('app-send', 'app-ping', 'app-close'):
-                yield dict(kind='twoconn', bfault=bfault, astuck=astuck)
-        if tier == 'thorough':
-            for r in range(40):
-                yield dict(kind='real', mode=('rst', 'fin')[r % 2], off=r * 7 % 150, r=r)
-        else:
-            for r in range(6):
-                yield dict(kind='real', mode=('rst', 'fin')[r % 2], off=(0, 40, 129, 131, 140, 150)[r], r=r)
     return gen.shard(allcases(), i, n)
 
 
